@@ -52,7 +52,8 @@ def run(chk, tier, seed):
                         what = (f'tree {r["tree"]} pattern {r["pattern"]!r} flags {r["fl"]} exclude {r["exclude"]}: ' +
                                 (f'glob returns {r[kind][:5]} but globmatch(REALPATH) rejects them' if kind == 'only_glob'
                                  else f'globmatch(REALPATH) accepts {r[kind][:5]} which glob does not return'))
-                        chk.violation(dict(base, obligation='C04.bounded.glob==globmatch(REALPATH)', kind=kind, witness=r[kind][0], paths=r[kind][:5]), what, rp)
+                        chk.violation(dict(base, obligation='C04.bounded.glob==globmatch(REALPATH)', kind=kind, witness=r[kind][0], paths=r[kind][:5],
+                                                link_is_written=str(trees.link_is_written(specs[r['tree']], r[kind][0], r['pattern']))), what, rp)
     from checks import fixed_clauses
     fixed_clauses.newline_names(chk, 'C04')
     chk.rule = ('bounded stand-in: for every (tree, pattern, flags[, exclude]) the set glob() returns (trailing separators ignored) is compared with the set of candidates '
